@@ -229,7 +229,7 @@ class C12(verif.Spec):
     harness = "codec_harness"
     harness_link_lib = True
     partial_note = ""
-    open_statements = ["Zvbi.Hamm.ham24p_unham24p_statement (24/18 encode->decode round trip for all 2^18 values: not used by the C12 codecs, tested against an EN 300 706 8.3 reference only)"]
+    open_statements = []
     assumptions = ["time_t is 64 bit (TIME_MIN/TIME_MAX never reached for 5-digit MJD)",
                    "callers pass buffers of the documented size (13/5/42 bytes)"]
     trusted_base = ["translate/gen_tables.py (Hamming tables; cross-checked op by op against the compiled tables and against the EN 300 706 reference in checks/C12.py)",
@@ -277,6 +277,15 @@ class C12(verif.Spec):
             for _ in range(3):
                 k, j = rng.sample(range(24), 2)
                 u = list(t); u[k // 8] ^= 1 << (k % 8); u[j // 8] ^= 1 << (j % 8)
+                ops.append("unham24p " + hx(u))
+        # every entry of the three forward tables (byte slices of c) is used at least twice
+        for x in range(256):
+            for v in (x, x << 8, ((x & 3) << 16) | ((x * 0x0101) & 0xFFFF), rng.randrange(1 << 10) << 8 | x):
+                ops.append("ham24p %d" % v)
+                t = r_ham24(v)
+                ops.append("unham24p " + hx(t))
+                k = rng.randrange(24)
+                u = list(t); u[k // 8] ^= 1 << (k % 8)
                 ops.append("unham24p " + hx(u))
         for _ in range(n * 5):
             ops.append("unham24p " + hx(rbuf(rng, 3)))
